@@ -13,6 +13,7 @@ package xpool
 import (
 	"errors"
 	"fmt"
+	"os"
 	"strings"
 	"testing"
 
@@ -305,8 +306,9 @@ func TestVerifC17_BucketedPool(t *testing.T) {
 	rec := kit.For(t, "C17")
 	known := kit.KnownFindings("C17")[sigC17Budget]
 
+	skipFixed := os.Getenv("VERIF_SKIP_FIXED") != "" // sensitivity experiments: let only the generator find mutants
 	// saved regression input of finding F6: 11 bytes requested, 20 charged, budget 15.
-	{
+	if !skipFixed {
 		cfg := poolCfg{10, 100, 2, 15}
 		ops := []poolOp{{kind: "get", sz: 11, fill: 11}}
 		res := runPool(cfg, ops)
@@ -327,6 +329,9 @@ func TestVerifC17_BucketedPool(t *testing.T) {
 		{poolCfg{10, 100, 2, 0}, []poolOp{{kind: "get", sz: 11, fill: 11}, {kind: "get", sz: 500, fill: 500}, {kind: "put", idx: 1}, {kind: "put", idx: 0}, {kind: "get", sz: 15, fill: 1}}},
 		{poolCfg{4, 2, 2, 10}, []poolOp{{kind: "get", sz: 7, fill: 7}, {kind: "get", sz: 3, fill: 3}, {kind: "get", sz: 1}, {kind: "putnil"}}},
 	} {
+		if skipFixed {
+			break
+		}
 		if res := runPool(h.cfg, h.ops); res.msg != "" {
 			rec.Violation(t, "fixed history: %s | %s", res.msg, renderOps(h.cfg, h.ops))
 		}
